@@ -261,7 +261,11 @@ class FastSerialCommunicator(LogMixin):
                 Typically used with binary messages so the longs can contain human readable versions.
                 Defaults to None which means the actual msg will be used in the logs.
         """
-        await self.no_response_waiting.wait()
+        while True:
+            await self.no_response_waiting.wait()
+            # one response releases every waiter; only the first one may go on
+            if self.no_response_waiting.is_set():
+                break
         self.no_response_waiting.clear()
         self.send_with_confirmation(msg, pause_sending_until, log_msg)
 
